@@ -7,9 +7,9 @@ save_object, restore_object (C entry points and efuns), with the interposed libc
   leaves  13+1 ints, 6 floats, 513 strings (every byte 1..255 alone and as a?b, mixed escapes, empty, UTF-8), an object
           reference x 9 contexts,
           C entry points + efuns + save_object(0/1)/restore_object with static, inherited-static and object-valued variables
-  struct  every value of {leaf | array 0..2 | mapping 0..2 | class 1..2}: thorough: depth 3 over 2 leaves (10 036 970
+  struct  every value of {leaf | array 0..2 | mapping 0..2 | class 1..2}: thorough: depth 3 over 2 leaves (10 032 068
           values), variable and object round trip; quick: depth 2 over 2 leaves (1 828 values) likewise, and depth 3 over
-          1 leaf (354 294 values) through save_variable/restore_variable
+          1 leaf (354 322 values) through save_variable/restore_variable
   damage  58 saved texts (quick: the first 29): every prefix, every substitution by 16 symbols, every deletion, x {restore_variable,
           restore_object, restore_object(,1)}; 3 save files likewise with 19 symbols x {clear, noclear}
   strings every string of length <= 5 (quick) / 6 (thorough) over ( { [ / " , : } ) ] \\ - . e + 1 through restore_svalue and
